@@ -588,11 +588,17 @@ def run(tier='quick', seed=0):
     ct_tasks = [(tkey, ct_class_name(tkey)) for tkey in xsdspec.ALL_CT]
     ctx = mp.get_context('fork')
     all_obs, cases = [], []
-    with ctx.Pool(processes=min(16, os.cpu_count() or 4), maxtasksperchild=1) as pool:
-        for obs, cs in pool.imap_unordered(task, tasks, chunksize=1):
-            all_obs.extend(obs); cases.extend(cs)
-        for obs, cs in pool.imap_unordered(ct_task, ct_tasks, chunksize=1):
-            all_obs.extend(obs)
+    from ..par import run_chunked
+    for t, kind, val in run_chunked(task, tasks, chunk=1, hard_timeout=900):
+        if kind == 'ok':
+            all_obs.extend(val[0]); cases.extend(val[1])
+        else:
+            all_obs.append(dict(oid=f'C05/worker/{t[0]}/{t[2]}', status='undecided', detail=f'worker {kind}: {str(val)[:300]}', kind='worker'))
+    for t, kind, val in run_chunked(ct_task, ct_tasks, chunk=8, hard_timeout=900):
+        if kind == 'ok':
+            all_obs.extend(val[0])
+        else:
+            all_obs.append(dict(oid=f'C05/worker/{t[0]}', status='undecided', detail=f'worker {kind}: {str(val)[:300]}', kind='worker'))
     # bounded lemma
     nb, cex = check_cleaned_token_lemma(6 if tier == 'quick' else 8)
     all_obs.append(dict(oid='C05/lemma/get_cleaned_token==collapse', status='discharged' if cex is None else 'violated', level='bounded',
